@@ -97,6 +97,36 @@ fn corpus(mask: u16, seed: u64, n: usize) -> Vec<(String, String)> {
             continue;
         }
         out.push((b.spec.render_def_with("", true), "enabled".to_string()));
+        // the same (valid, bounds and parameters included) request with one more attribute that names a disabled trait, at the
+        // type, on a variant or on a field
+        if !disabled.is_empty() && d.chance(40) {
+            let mut spec = b.spec.clone();
+            let t = *d.choose(&disabled);
+            let form = match (t, d.pick(3)) {
+                (Tr::Into, _) => "Into(u8)".to_string(),
+                (Tr::Debug | Tr::PartialEq | Tr::PartialOrd | Tr::Ord | Tr::Hash, 1) => format!("{}(ignore)", t.name()),
+                (Tr::Debug | Tr::PartialEq | Tr::PartialOrd | Tr::Ord | Tr::Hash | Tr::Clone, 2) => format!("{}(method(m))", t.name()),
+                _ => t.name().to_string(),
+            };
+            let attr = format!("#[educe({form})]");
+            let nv = spec.variants.len();
+            let place = d.pick(3);
+            let with_fields: Vec<usize> = (0..nv).filter(|i| !spec.variants[*i].fields.is_empty()).collect();
+            if place == 0 || nv == 0 || (place == 1 && spec.kind != Kind::Enum) && with_fields.is_empty() {
+                spec.raw.push(attr);
+            } else if place == 1 && spec.kind == Kind::Enum {
+                let vi = d.pick(nv);
+                spec.variants[vi].raw.push(attr);
+            } else if !with_fields.is_empty() {
+                let vi = *d.choose(&with_fields);
+                let nf = spec.variants[vi].fields.len();
+                let fi = d.pick(nf);
+                spec.variants[vi].fields[fi].raw.push(attr);
+            } else {
+                spec.raw.push(attr);
+            }
+            out.push((spec.render_def_with("", true), format!("names-disabled:{}", t.name())));
+        }
     }
     // invalid requests over the enabled traits: whatever the all-features build refuses, the subset build must refuse too
     {
@@ -205,8 +235,8 @@ pub fn run(ctx: &Ctx) -> i32 {
         ctx,
         "subsets of the 12 trait features (plus the non-trait feature `full` alone, with one trait and with all). Build half: cargo check of /repo (guard off) with exactly the subset: must succeed without warnings; the empty \
          set must fail with the explicit message. Behaviour half: the subject compiled with exactly the subset expands generated requests that use only \
-         enabled traits to the same tokens as the all-features build, and every disabled trait named alone, among enabled ones or on a field is refused as \
-         unsupported. Quick: empty set, singletons, complements, pair splits plus sampled subsets; thorough: all 4096 subsets for the build half and all \
+         enabled traits to the same tokens as the all-features build, and every disabled trait named alone, among enabled ones, on a field, or added (plain, with ignore, with a method) \
+         at the type, a variant or a field of a generated valid request is refused as unsupported. Quick: empty set, singletons, complements, pair splits plus sampled subsets; thorough: all 4096 subsets for the build half and all \
          4095 for the behaviour half. Non-trivial = the subset splits a coupled pair or enables exactly one user of a shared helper module",
     );
     if ctx.replay.is_some() {
